@@ -10,7 +10,7 @@ import (
 func init() {
 	register(stream{
 		name: "immut",
-		rule: "invocations (constructed, and decoded from sealed bytes) whose argument keys were inserted in EVERY order of ≤ 4 (5 thorough) keys and whose metadata keys in 3 orders, plus the root delegation they rely on: before and after each read-only operation (Arguments().ToIPLD, Arguments().String, Meta().String, Iter on both, ExecutionAllowed, ToSealed/ToDagJson/String of both tokens) the key order observable through Iter() is compared with the model's post-state, and the operation's own output order with the model's; every operation is then run from 8 goroutines on the SAME tokens and must return what it returns alone. Non-trivial = the insertion order is not already sorted. Distinct = distinct protocol lines.",
+		rule: "invocations (constructed, and decoded from sealed bytes) whose argument keys were inserted in EVERY order of ≤ 4 (5 thorough) keys and whose metadata keys in 3 orders, plus the root delegation they rely on: before and after each read-only operation (Arguments().ToIPLD, Arguments().String, Meta().String, Iter on both, ExecutionAllowed, ExecutionAllowedWithArgsHook observed from inside the loader, ExecutionAllowed with a loader lacking the proofs, ToSealed/ToDagJson/String of the invocation and of both delegations of its chain; every ordered pair of these on one fresh token; cells written into the spare capacity of the shared leaf delegation's policy slice) the key order observable through Iter() is compared with the model's post-state, and the operation's own output order with the model's; every operation is then run from 8 goroutines on the SAME tokens and must return what it returns alone. Non-trivial = the insertion order is not already sorted. Distinct = distinct protocol lines.",
 		run:  runImmutStream,
 		eval: evalImmut,
 		cmp: func(line, g, m string) string {
@@ -52,14 +52,34 @@ func evalImmut(line string) (out string, rd string) {
 			return "op-error: " + e, rd
 		}
 		a, m, _ := fx.Snapshot()
-		return hxListS(a) + " " + hxListS(m) + " " + hxListS(ks), rd
+		return hxListS(a) + " " + hxListS(m) + " " + hxListS(ks) + " " + fmt.Sprint(fx.SpareWritten()), rd
+	case "imm.pair":
+		// imm.pair <op X> <op Y> <arg keys> <meta keys> [decoded]: Y after X on the same, fresh token
+		decoded := len(f) > 5 && f[5] == "decoded"
+		fx, err := immutwork.New(unhxList(f[3]), unhxList(f[4]), decoded)
+		if err != nil {
+			return "fixture: " + err.Error(), rd
+		}
+		if _, e := fx.Run(f[1]); e != "" {
+			return "op-error (first): " + e, rd
+		}
+		ks, e := fx.Run(f[2])
+		if e != "" {
+			return "op-error: " + e, rd
+		}
+		a, m, _ := fx.Snapshot()
+		return hxListS(a) + " " + hxListS(m) + " " + hxListS(ks) + " " + fmt.Sprint(fx.SpareWritten()), rd
 	case "go.imm.concurrent":
 		decoded := f[3] == "decoded"
 		fx, err := immutwork.New(unhxList(f[1]), unhxList(f[2]), decoded)
 		if err != nil {
 			return "fixture: " + err.Error(), rd
 		}
-		return immutwork.Concurrent(fx, 8, 40), rd
+		twin, err := immutwork.New(unhxList(f[1]), unhxList(f[2]), decoded)
+		if err != nil {
+			return "fixture: " + err.Error(), rd
+		}
+		return immutwork.Concurrent(twin, fx, 8, 40), rd
 	}
 	return "bad-line", rd
 }
@@ -112,6 +132,23 @@ func runImmutStream(c *ctx) error {
 						dm := append([]string(nil), mo...)
 						sortCborKeys(dm)
 						c.emit("imm.op "+op+" "+hxList(ds)+" "+hxList(dm)+" decoded", "immut.op:"+op, true, "op-decoded:"+op)
+					}
+				}
+				// history independence: every ordered pair of operations on one fresh token
+				if (k == 2 && mi == 0) || (c.thoro && k <= 3) {
+					for _, x := range immutwork.Ops {
+						for _, y := range immutwork.Ops {
+							c.emit("imm.pair "+x+" "+y+" "+hxList(p)+" "+hxList(mo), "immut.pair:"+x+">"+y, true, "pair:"+x+">"+y)
+						}
+					}
+					ds := append([]string(nil), p...)
+					sortCborKeys(ds)
+					dm := append([]string(nil), mo...)
+					sortCborKeys(dm)
+					for _, x := range []string{"executionAllowed", "executionAllowedHook", "seal"} {
+						for _, y := range immutwork.Ops {
+							c.emit("imm.pair "+x+" "+y+" "+hxList(ds)+" "+hxList(dm)+" decoded", "immut.pair:"+x+">"+y, true, "pair-decoded:"+x+">"+y)
+						}
 					}
 				}
 				if k >= 2 && (c.thoro || n%5 == 0) {
